@@ -774,6 +774,12 @@ func (g *palGen) wire() {
 		op.Pal = append(op.Pal, v)
 	}
 	g.ops = append(g.ops, op)
+	if g.budget > 0 && g.rng.Intn(2) == 0 {
+		// the container that was just read is written again at once (before any Set can rebuild its storage): what a
+		// used container kept from its earlier life must not reach the wire
+		g.budget--
+		g.ops = append(g.ops, palOp{Op: "wire", T: "fresh", Tail: g.rng.Intn(6)})
+	}
 	if len(op.Pal) > 0 {
 		for k := 0; k < 3; k++ {
 			g.set(g.rng.Intn(g.n), op.Pal[g.rng.Intn(len(op.Pal))])
